@@ -316,7 +316,8 @@ static std::string run_case(const CaseFile &c) {
             bool seen_must = must == 0;
             for (size_t i = 0; i < log.errs.size(); i++) {
                 if (log.errs[i].code == must) seen_must = true;
-                if (i > 0 && !has(follow, log.errs[i].code)) { msg = "unexpected follow-up error " + std::string(cm::code_name(log.errs[i].code)) + " after the planted defect; callbacks: " + ph::errs_str(log); break; }
+                // later callbacks: the property fixes only the FIRST callback and the recovered content, so an unlisted follow-up is labelled, not failed
+                if (i > 0 && !has(follow, log.errs[i].code)) label(std::string("unlisted-follow-up:") + cm::code_name(log.errs[i].code));
             }
             if (msg.empty() && !seen_must) msg = std::string(cm::code_name(must)) + " was never reported; callbacks: " + ph::errs_str(log);
         }
@@ -924,10 +925,9 @@ static bool p_null_key(Work &W, Env &E, Plan &P) {
     int open, at; if (!table_point(W, E, P, open, at)) return false;
     P.cn.marker = u"zqNULLKEYzq";
     int m = *g::range(0, 2);
-    // F-NULLKEY-SPACE (known): with the value attached (":v") the accepted CIF_NULL_KEY is followed by a spurious CIF_MISSING_SPACE between the
-    // colon and the value.  Excluded by construction: the value is separated from the colon by white space (": v").
-    count_excluded("F-NULLKEY-SPACE");
-    if (gen_known()) { insert_toks(P.toks, at, {raw(m == 0 ? ":zqNULLKEYzq" : m == 1 ? ":'zqNULLKEYzq'" : ":\"zqNULLKEYzq\"")}); P.pos.push_back("value-attached"); }
+    // the value attached to the colon (":v") or separated from it (": v").  (With the value attached the library also reports a
+    // CIF_MISSING_SPACE after the accepted CIF_NULL_KEY; the property does not constrain later callbacks -- labelled only.)
+    if (*g::chance(50)) { insert_toks(P.toks, at, {raw(m == 0 ? ":zqNULLKEYzq" : m == 1 ? ":'zqNULLKEYzq'" : ":\"zqNULLKEYzq\"")}); P.pos.push_back("value-attached"); }
     else insert_toks(P.toks, at, {raw(":"), raw(m == 0 ? "zqNULLKEYzq" : m == 1 ? "'zqNULLKEYzq'" : "\"zqNULLKEYzq\"")});
     P.first = {CIF_NULL_KEY}; P.lo_tok = at; P.hi_tok = at + 1;
     return true;
@@ -1052,9 +1052,8 @@ static bool p_line_length(Work &W, Env &E, Plan &P, bool control) {
     if (!start(W, E, P)) return false;
     int L = control ? (*g::chance(75) ? 2048 : *g::range(2040, 2047)) : *g::range(2049, 2060);
     int i;
-    // F-KEYCOL (known): the column counter misses the colon of every table key, so an over-long line that holds a key is measured one character
-    // short per key.  Excluded by construction: the long line holds no table key (the 2048 control is not affected: it must be silent either way).
-    bool avoid_key = !control && !gen_known(); bool dropped = false, blanks = false;
+    // (F-KEYCOL, fixed: the column counter missed the colon of every table key; lines holding keys are no longer avoided.)
+    bool avoid_key = false; bool dropped = false, blanks = false;
     auto keyed_line = [&](const Tok &t) { return t.keylen > 0 && (variant == 0 ? t.s.find('\n') == std::string::npos : true); };
     if (variant == 0) {
         std::vector<int> c0; for (int k = 0; k < (int) W.R.t.size(); k++) { if (avoid_key && keyed_line(W.R.t[(size_t) k])) { dropped = true; continue; } c0.push_back(k); }
@@ -1194,9 +1193,8 @@ static bool make_case(const Row &row, const Doc &host, Env &E, CaseFile &c) {
     if (!row.plant(W, E, P)) return false;
     if (P.final_nl) P.final_nl = want_nl;
     if (!P.final_nl && P.cls == "overlength-line" && P.lo_tok == (int) P.toks.size() - 1) {
-        // F-LASTLINE-LEN (known): an over-long last line that is not terminated is never measured.  Excluded by construction: terminate it.
-        count_excluded("F-LASTLINE-LEN");
-        if (gen_known()) P.pos.push_back("unterminated-last-line"); else P.final_nl = true;
+        // (F-LASTLINE-LEN, fixed: an over-long last line that is not terminated was never measured.)
+        P.pos.push_back("unterminated-last-line");
     }
     if (!P.final_nl && std::find(P.pos.begin(), P.pos.end(), "before-eof") != P.pos.end()) P.pos.push_back("no-final-eol");
     uint32_t sepseed = mix(E.seed, 4242);
@@ -1250,9 +1248,6 @@ int main(int argc, char **argv) {
     e.replay = run_case;
     e.classify = [](const CaseFile &c) {
         const std::string cls = c.get("cls"), pos = " " + c.get("pos");
-        if (cls == "overlength-line" && pos.find(" line-has-key ") != std::string::npos) return std::string("F-KEYCOL");
-        if (cls == "null-key" && pos.find(" value-attached ") != std::string::npos) return std::string("F-NULLKEY-SPACE");
-        if (cls == "overlength-line" && pos.find(" unterminated-last-line ") != std::string::npos) return std::string("F-LASTLINE-LEN");
         return std::string();
     };
     return engine_main(argc, argv, e);
